@@ -448,6 +448,8 @@ def run_success_case(case):
         label = (f"{ff}/{d['x']}@{d['pos']}/"
                  + "+".join(":".join(map(str, e)) for e in d["env"]))
         opts = [f"--ff={ff}"] + list(s3.OPTION_SETS[d["opt"]])
+        if d.get("water_h"):
+            label += "water-with-only:" + "+".join(d["water_h"])
         if d["opt"] != "default":
             label += f"/opt={d['opt']}"
     elif case["kind"] == "host":
@@ -572,6 +574,7 @@ def enumerate_cases(tier, seed):
                                hosts=["SER", "THR", "TYR"],
                                rots=range(0, 24, 2))
               + s3.tetra_partner_cases("AMBER")
+              + s3.water_h_cases("AMBER")
               + s3.torsion_cases("AMBER")):
         if s3.build_case(d) is not None:
             cases.append({"mode": "success", "kind": "s3", "ff": d["ff"],
